@@ -144,8 +144,8 @@ def http_send_automaton(n: int, a: int, b: int, c: int, d: int, v2: int) -> bool
 
 # ------------------------------------------------------------------ WebSocket send automaton
 
-(W_ACCEPT, W_ACCEPT_BADSUB, W_TEXT, W_BYTES, W_BADTEXT, W_CLOSE, W_HSTART, W_HBODY_END, W_HBODY_MORE, W_UNKNOWN, W_HSTART_PSEUDO) = range(11)
-WNAMES = ["accept", "accept(bad subprotocol)", "send text", "send bytes", "send(text=int)", "close", "http.start", "http.body.", "http.body+", "unknown", "http.start(:pseudo)"]
+(W_ACCEPT, W_ACCEPT_BADSUB, W_TEXT, W_BYTES, W_BADTEXT, W_CLOSE, W_HSTART, W_HBODY_END, W_HBODY_MORE, W_UNKNOWN, W_HSTART_PSEUDO, W_BYTESTEXT) = range(12)
+WNAMES = ["accept", "accept(bad subprotocol)", "send text", "send bytes", "send(text=int)", "close", "http.start", "http.body.", "http.body+", "unknown", "http.start(:pseudo)", "send(text=bytes)"]
 
 
 def _wmsg(i: int) -> dict:
@@ -169,6 +169,8 @@ def _wmsg(i: int) -> dict:
         return {"type": "websocket.http.response.body", "body": b"n", "more_body": True}
     if i == W_UNKNOWN:
         return {"type": "not.a.real.type"}
+    if i == W_BYTESTEXT:
+        return {"type": "websocket.send", "bytes": None, "text": b"not-a-str"}
     return {"type": "websocket.http.response.start", "status": 401, "headers": [(b":status", b"200")]}
 
 
@@ -185,12 +187,9 @@ def ref_ws(seq):
                 out.append("ok")
                 state = "CONNECTED"
             else:
-                out.append("error")
-                if state == "HANDSHAKE":
-                    out.append("stop")  # a refused accept leaves hypercorn half-switched: later letters are not judged
-                    break
-        elif i in (W_TEXT, W_BYTES, W_BADTEXT):
-            out.append("ok" if (state == "CONNECTED" and i != W_BADTEXT) else "error")
+                out.append("error")  # a refused accept changes nothing: the handshake is still unanswered
+        elif i in (W_TEXT, W_BYTES, W_BADTEXT, W_BYTESTEXT):
+            out.append("ok" if (state == "CONNECTED" and i not in (W_BADTEXT, W_BYTESTEXT)) else "error")
         elif i == W_CLOSE:
             if state == "HANDSHAKE" and started is None:
                 out.append("ok")
@@ -240,13 +239,13 @@ _WS_HEADERS = [
 
 @harness(
     "C12",
-    dom={"n": (1, 3), "a": (0, 10), "b": (0, 10), "c": (0, 10), "d": (0, 10)},
+    dom={"n": (1, 3), "a": (0, 11), "b": (0, 11), "c": (0, 11), "d": (0, 11)},
     thorough_dom={"n": (1, 4)},
     split={"a": "each", "b": 2},
     thorough_split={"a": "each", "b": "each"},
     witnesses=[{"n": 3, "a": 0, "b": 2, "c": 5, "d": 0}, {"n": 3, "a": 6, "b": 8, "c": 7, "d": 0}],
     budget={"quick": 100, "thorough": 600},
-    bounds="every sequence of <=3 (thorough 4) messages over an 11-letter WebSocket send alphabet (valid and invalid payloads) after a valid HTTP/1.1 handshake, against a reference automaton of the ASGI spec",
+    bounds="every sequence of <=3 (thorough 4) messages over a 12-letter WebSocket send alphabet (valid and invalid payloads) after a valid HTTP/1.1 handshake, against a reference automaton of the ASGI spec",
     encodes=["hypercorn/protocol/ws_stream.py::WSStream.app_send", "hypercorn/protocol/ws_stream.py::WSStream._accept", "hypercorn/protocol/ws_stream.py::WSStream._send_rejection", "hypercorn/protocol/ws_stream.py::Handshake.accept"],
     stubs=["stream `send` callback = recorder"],
 )
@@ -258,7 +257,7 @@ def ws_send_automaton(n: int, a: int, b: int, c: int, d: int) -> bool:
     enter()
     n = conc(n, 1, 4)
     letters = (a, b, c, d)
-    seq = [conc(letters[i], 0, 10) for i in range(n)]
+    seq = [conc(letters[i], 0, 11) for i in range(n)]
     want = ref_ws(seq)
     rig = Rig("ws")
     rig.set_app(recording_app(rig))
@@ -294,6 +293,11 @@ def ws_send_automaton(n: int, a: int, b: int, c: int, d: int) -> bool:
                 break
     if heads > 1:
         ok, why = False, "more than one response head"
+    if ok and "unspecified" not in want and "stop" not in want:
+        # the application ends here: the server's clean-up must cope with whatever state the sends left behind
+        err = rig.app_send(None)
+        if err is not None:
+            ok, why = False, f"clean-up after the application ended raised {err!r}"
     return done(ok, seq=[WNAMES[i] for i in seq], why=why)
 
 
